@@ -269,6 +269,11 @@ func managerScenario(c mgrConfig) func() func() []string {
 				if o.other != "" {
 					problems = append(problems, fmt.Sprintf("unexpected-signal: request %d received %q", i, o.other))
 				}
+				if !o.complete && store.blocks[blocks[i].hash] && !c.abort && !c.interrupt {
+					// nobody aborted the request and the manager was not shut down: a download of the block
+					// finished without error (it is on record), so the request is owed its completion
+					problems = append(problems, fmt.Sprintf("completion-lost: a downloader finished block %d and recorded it, but request %d never got the completion signal (%s)", i, i, errClass(runErr)))
+				}
 				if o.complete && !store.blocks[blocks[i].hash] {
 					problems = append(problems, fmt.Sprintf("complete-without-download: request %d was signalled complete but no downloader finished the block", i))
 				}
